@@ -132,7 +132,41 @@ RxCases == [n \in 1..(Len(RxFns) * Len(RxPats) * Len(RxSubs)) |->
               [ast |-> IF fn = "rx" THEN Bin("=~", Path("@", <<>>), Const([t |-> "rx", p |-> pt]))
                        ELSE Bin(fn, Path("@", <<>>), Const(StrV(pt))),
                elem |-> StrV(sb), root |-> Members(None, None)]]
-Cases == BinCases \o UnCases \o BareCases \o BigOne \o BigTwo \o RxCases
+\* integers beyond 2^53 (two neighbours round to the same float64): int / int comparison is exact.  As constants and as
+\* members read from the data, on both sides of == != < > <= >=  (2^53, 2^53+1, MaxInt64-1, MaxInt64, their negatives, and 5)
+BigInts == <<[t |-> "int", dec |-> [neg |-> FALSE, digits |-> <<9, 0, 0, 7, 1, 9, 9, 2, 5, 4, 7, 4, 0, 9, 9, 2>>, exp10 |-> 0]], [t |-> "int", dec |-> [neg |-> FALSE, digits |-> <<9, 0, 0, 7, 1, 9, 9, 2, 5, 4, 7, 4, 0, 9, 9, 3>>, exp10 |-> 0]], [t |-> "int", dec |-> [neg |-> FALSE, digits |-> <<9, 2, 2, 3, 3, 7, 2, 0, 3, 6, 8, 5, 4, 7, 7, 5, 8, 0, 6>>, exp10 |-> 0]], [t |-> "int", dec |-> [neg |-> FALSE, digits |-> <<9, 2, 2, 3, 3, 7, 2, 0, 3, 6, 8, 5, 4, 7, 7, 5, 8, 0, 7>>, exp10 |-> 0]], [t |-> "int", dec |-> [neg |-> TRUE, digits |-> <<9, 0, 0, 7, 1, 9, 9, 2, 5, 4, 7, 4, 0, 9, 9, 3>>, exp10 |-> 0]], [t |-> "int", dec |-> [neg |-> TRUE, digits |-> <<9, 0, 0, 7, 1, 9, 9, 2, 5, 4, 7, 4, 0, 9, 9, 2>>, exp10 |-> 0]], [t |-> "int", dec |-> [neg |-> TRUE, digits |-> <<9, 2, 2, 3, 3, 7, 2, 0, 3, 6, 8, 5, 4, 7, 7, 5, 8, 0, 8>>, exp10 |-> 0]], [t |-> "int", dec |-> [neg |-> TRUE, digits |-> <<9, 2, 2, 3, 3, 7, 2, 0, 3, 6, 8, 5, 4, 7, 7, 5, 8, 0, 7>>, exp10 |-> 0]], IntV(5)>>
+CmpOps == <<"==", "!=", "<", ">", "<=", ">=">>
+BigIntForms == <<"cc", "dd", "cd", "dc">>       \* c = constant, d = member of the element (@.k left, @.j right)
+BigIntCases == [n \in 1..(Len(CmpOps) * Len(BigInts) * Len(BigInts) * Len(BigIntForms)) |->
+                  LET nb == Len(BigInts) nf == Len(BigIntForms)
+                      o == CmpOps[((n - 1) \div (nb * nb * nf)) + 1]
+                      x == BigInts[(((n - 1) \div (nb * nf)) % nb) + 1]
+                      y == BigInts[(((n - 1) \div nf) % nb) + 1]
+                      f == BigIntForms[((n - 1) % nf) + 1]
+                      le == IF f \in {"cc", "cd"} THEN Const(x) ELSE Path("@", <<Child(Kk)>>)
+                      re == IF f \in {"cc", "dc"} THEN Const(y) ELSE Path("@", <<Child(Kj)>>) IN
+                  [ast |-> Bin(o, le, re), root |-> Members(None, None), elem |-> ObjV(<<Kj, Kk>>, <<y, x>>)]]
+\* operand paths of depth 2-3 (@.a.b, @.a.b.c, @.a[0].b, @.a[-1].b): the harness runs each case again with the intermediate
+\* containers in other Go representations (gen inside plain, struct, pointer, typed / named map and slice, Keyed / Indexed,
+\* mixed); what the path denotes is the same
+Ka == <<97>>
+Kb == <<98>>
+Kc == <<99>>
+DeepLeaves == <<IntV(1), IntV(2), StrV(A), BoolV(TRUE), NullV, NothingV>>
+DeepShapes == <<"ab", "abc", "a0b", "a-1b">>
+DeepOps == <<"==", "!=", "<", ">=", "has", "exists">>
+Wrap1(k, v) == IF v.t = "nothing" THEN ObjV(<<>>, <<>>) ELSE ObjV(<<k>>, <<v>>)
+DeepCases == [n \in 1..(Len(DeepShapes) * Len(DeepLeaves) * Len(DeepOps)) |->
+                LET sh == DeepShapes[((n - 1) \div (Len(DeepLeaves) * Len(DeepOps))) + 1]
+                    v == DeepLeaves[(((n - 1) \div Len(DeepOps)) % Len(DeepLeaves)) + 1]
+                    o == DeepOps[((n - 1) % Len(DeepOps)) + 1]
+                    fr == CASE sh = "ab" -> <<Child(Ka), Child(Kb)>> [] sh = "abc" -> <<Child(Ka), Child(Kb), Child(Kc)>>
+                            [] sh = "a0b" -> <<Child(Ka), Nth(0), Child(Kb)>> [] OTHER -> <<Child(Ka), Nth(-1), Child(Kb)>>
+                    inner == CASE sh = "ab" -> Wrap1(Kb, v) [] sh = "abc" -> ObjV(<<Kb>>, <<Wrap1(Kc, v)>>)
+                               [] sh = "a0b" -> ArrV(<<Wrap1(Kb, v), IntV(7)>>) [] OTHER -> ArrV(<<IntV(7), Wrap1(Kb, v)>>)
+                    c == IF o \in {"has", "exists"} THEN Const(BoolV(TRUE)) ELSE Const(IntV(1)) IN
+                [ast |-> Bin(o, Path("@", fr), c), root |-> Members(None, None), elem |-> ObjV(<<Ka>>, <<inner>>)]]
+Cases == BinCases \o UnCases \o BareCases \o BigOne \o BigTwo \o RxCases \o BigIntCases \o DeepCases
 
 VARIABLE done
 Init == done = FALSE
